@@ -144,7 +144,7 @@ class Interp:
         self.observations.append((label, v))
 
     def reach(self, label):
-        self.reached[label] = self.reached.get(label, 0) + 1
+        self.reached[label] = self.reached.get(label, 0) + 1; self.path_reached = True
 
     def cex(self, mdl):
         out = {}
@@ -1042,14 +1042,14 @@ class Interp:
             self.pc = []; self.solver.push()
             self.objs = [Obj(0, 'null', 'null')]; self.gaddrs = {}; self.fnaddr = {}; self.tids = {}; self.caught = []
             self.inflight = None; self.symcount = 0; self.path_steps = 0; self.path_ops = set()
-            self.inputs = {}; self.observations = []; self.path_obl = 0; self.pending_obl = []; self.model = None
+            self.inputs = {}; self.observations = []; self.path_obl = 0; self.pending_obl = []; self.model = None; self.path_reached = False
             try:
                 try:
                     harness(self)
                 finally:
                     if self.pending_obl and sys.exc_info()[0] is not PathEnd: self.flush_obligations()
                 st['paths'] += 1
-                if self.path_obl: st['obl_paths'] += 1
+                if self.path_obl or self.path_reached: st['obl_paths'] += 1
                 if len(st['samples']) < 3 and self.inputs:
                     try:
                         if self.check(): st['samples'].append({'inputs': self.cex(self.get_model()), 'decisions': len(self.trace), 'obligations': self.path_obl})
